@@ -227,6 +227,7 @@ class TCPRegistryServer(RegistryServer):
     def _recv(self):
         sock2, _ = self.sock.accept()
         addrinfo = sock2.getpeername()
+        sock2.settimeout(self.TIMEOUT)  # a client that sends nothing must not block the registry
         data = sock2.recv(MAX_DGRAM_SIZE)
         self._connected_sockets[addrinfo] = sock2
         return data, addrinfo
